@@ -283,7 +283,8 @@ def run(ctx, prog):
     app = eff.blocks(ins, 'wal_append')
     first = [min(app)] if app else []
     if first:
-        g, p, why = C03.find_guard(ins, first, r'^bool\[.*Iterator>::any\((?:slice::iter|.*iter)\(arg:embedding\), closure:.*\)\]$', extra=lambda p_: util.finite_closure(prog, p_))
+        g, p, why = C03.find_guard(ins, first, r'^bool\[.*Iterator>::any\((?:slice::iter|.*iter)\(arg:embedding\), closure:.*\)\]$', extra=lambda p_: util.finite_closure(prog, p_),
+                                   structural=C03.finite_flag_guards(ins))   # also the explicit-loop form of the same check (flag set in a loop over the whole embedding)
         ctx.inst('C15.R2', ins.short, 'non-finite vectors refused before the log on every write path', g is not None, ('guard at %s' % ins.loc_of(g)) if g is not None else why)
         g, p, why = C03.find_guard(ins, first, r'^!cmp\[\+ .*(HnswBackend::dimension\(arg:self\) - (?:Vec|slice)[\w:<>, ]*::len\(arg:embedding\)|len\(arg:embedding\) - HnswBackend::dimension\(arg:self\)) == 0\]$',
                                    exempt_rx=r'^cmp\[\+ HnswBackend::dimension\(arg:self\) == 0\]$')
